@@ -160,6 +160,28 @@ def whatshap_decode(path, sample):
     return out
 
 
+def restrict_phase(path, out, keep_blocks, statements_fn):
+    """copy of a phased VCF in which sample S1 keeps only the phase sets in keep_blocks (the rest is unphased)"""
+    p = synth.parse_vcf(path)
+    si = p["samples"].index("S1")
+    lines = list(p["header"]) + ["\t".join(["#CHROM", "POS", "ID", "REF", "ALT", "QUAL", "FILTER", "INFO", "FORMAT"] + p["samples"])]
+    for rec in p["records"]:
+        t = rec["line"].split("\t")
+        call = dict(rec["calls"][si])
+        sts = statements_fn(call)
+        if sts and not all(b in keep_blocks for _, b, _ in sts):
+            gt, _ = synth.gt_parse(call.get("GT"))
+            call["GT"] = "/".join(map(str, sorted(gt)))
+            for k in ("PS", "HP"):
+                if k in call:
+                    call[k] = "."
+            t[9 + si] = ":".join(call.get(k, ".") or "." for k in rec["format"])
+        lines.append("\t".join(t))
+    with open(out, "w") as f:
+        f.write("\n".join(lines) + "\n")
+    return out
+
+
 def run_op(ctx, d, state_path, op, tag_i):
     """execute one operation; returns (output path or None, traces, error)"""
     out = os.path.join(d, f"s{tag_i}.vcf")
@@ -176,7 +198,9 @@ def run_op(ctx, d, state_path, op, tag_i):
     kw = dict(tag=tag, samples=["S1"])
     if op in ("Ps", "Hs"):
         kw["only_snvs"] = True
-    if op.startswith("V"):
+    if op.startswith("V2"):
+        kw["phase_inputs"] = list(ctx["vin2"])
+    elif op.startswith("V"):
         kw["phase_inputs"] = [ctx["vin"]]
     parsed, traces, err = pw.run_phase(paths, d, out_name=f"s{tag_i}.vcf", **kw)
     if err:
@@ -327,7 +351,16 @@ def judge(sc):
                 blocks = {b: m for b, m in blocks.items() if len(m) >= 2}
                 if blocks:
                     ctx["vin"] = path
-                    for op in ("VPS", "VHP"):
+                    ops3 = ["VPS", "VHP"]
+                    if len(blocks) >= 2:
+                        # the same phasing handed over as two files (one phase set in the first, the rest in the second)
+                        first = min(blocks)
+                        ctx["vin2"] = [
+                            restrict_phase(path, os.path.join(d, "vin_a.vcf"), {first}, statements),
+                            restrict_phase(path, os.path.join(d, "vin_b.vcf"), set(blocks) - {first}, statements),
+                        ]
+                        ops3 += ["V2PS"]
+                    for op in ops3:
                         y3, tr3, err3 = apply(ukeep, op, tuple(hist) + ("U", op))
                         if err3:
                             viols.append(V("operation-fails", f"phasing from a phased VCF failed: {err3}", tuple(hist) + ("U", op)))
